@@ -78,8 +78,14 @@ def run(case):
     if case["fam"] == "lin" and not case.get("noise"):
         A = np.array(case["A"], dtype=float).reshape(case["m"], n)
         b = np.array(case["b"], dtype=float)
-        smin = float(np.linalg.svd(Xc, compute_uv=False)[-1]) if min(Xc.shape) >= n else 0.0
-        if smin > 0:
+        sv = np.linalg.svd(Xc, compute_uv=False) if min(Xc.shape) >= n else np.array([0.0])
+        smin = float(sv[-1])
+        if smin > 0 and smin < 1e-8 * float(sv[0]):
+            # numerically singular point set (e.g. random directions squeezed against a bound an ulp away): 'rounding amplified
+            # by the conditioning' is unbounded there, the forward comparison with A says nothing (the backward-error clause
+            # above is still judged). Thorough tier, seed 1: ||J - A|| = 1e32 on such a set was a false alarm.
+            res.count("linear-not-judged-singular-set")
+        elif smin > 0:
             tol = K * sc.EPS * S * (np.linalg.norm(A, 2) * maxX * math.sqrt(n) + np.linalg.norm(b) + 1e-300) * math.sqrt(npt) / smin
             err = float(np.linalg.norm(J - A, 2))
             res.margin("C11.linear", err / tol)
